@@ -54,6 +54,29 @@ def sample_mol():
     return m
 
 
+if w.get("op") == "collection-reads":
+    import tempfile, os
+    d = tempfile.mkdtemp()
+    bad = []
+    lib = ml.MoleculeLibrary(os.path.join(d, "l.mlib"), readonly=False, overwrite=True)
+    with lib.writing():
+        lib["a"] = sample_mol()
+    with lib.reading():
+        x = lib["a"]
+        x.name = "edited-in-memory"
+        x.charge = 7
+        x.coords[0, 0] = 123.0
+        y = lib["a"]
+        if y is x or y.name != "sample" or y.charge != -1 or y.coords[0, 0] == 123.0:
+            bad.append("a second read of the same key shows in-memory edits of the first result instead of what is stored")
+        vals = list(lib.values())
+        if vals and (vals[0] is x or vals[0].name != "sample"):
+            bad.append("values() shows an in-memory edit instead of what is stored")
+    if bad:
+        print("REPRODUCED:", "; ".join(bad))
+        sys.exit(0)
+    print("not reproduced")
+    sys.exit(1)
 kind = "ens" if "ens" in (w.get("op") or "") else "mol"
 ver = 1 if "v1" in (w.get("op") or "") else 2
 objs = []
